@@ -87,6 +87,20 @@ typedef Table::ConstRowReference CRef;
 typedef Table::RowReference RRef;
 typedef ColumnList::ColumnInfo CI;
 
+template<size_t N> static void fitIndexesN(const Table& t, const std::vector<size_t>& offs, long& fu, long& fm)
+{
+	std::array<size_t, N> arr; for (size_t i = 0; i < N; ++i) arr[i] = offs[i];
+	auto sorted = Table::Indexes::GetSortedOffsets(arr);
+	auto u = t.mIndexes.GetFitUniqueHashIndex(sorted); auto m = t.mIndexes.GetFitMultiHashIndex(sorted);
+	fu = (u == decltype(u)::empty) ? -1 : long(static_cast<ptrdiff_t>(u));
+	fm = (m == decltype(m)::empty) ? -1 : long(static_cast<ptrdiff_t>(m));
+}
+static void fitIndexes(const Table& t, const std::vector<size_t>& offs, long& fu, long& fm)
+{
+	switch (offs.size()) { case 1: fitIndexesN<1>(t, offs, fu, fm); break; case 2: fitIndexesN<2>(t, offs, fu, fm); break;
+		case 3: fitIndexesN<3>(t, offs, fu, fm); break; case 4: fitIndexesN<4>(t, offs, fu, fm); break; default: break; }
+}
+
 static const char* const kStr[10] = { "a-alpha", "b-bravo-long-string-beyond-the-small-buffer-0001", "c-charlie",
 	"d-delta-long-string-beyond-the-small-buffer-00002", "e-echo", "f-foxtrot", "g-golf-long-string-beyond-the-small-buffer-03",
 	"h-hotel", "i-absent", "j-absent-too" };
@@ -623,6 +637,12 @@ static std::string runOp(Bed& bed, const std::string& text)
 		if (got != exp) bed.bad("Select(mask " + std::to_string(mask) + ") returns " + std::to_string(got.size()) + " rows, brute force " + std::to_string(exp.size()));
 		long d = 0; for (long x : got) d = foldDigest(d, x + 1);
 		out << "q " << got.size() << " " << d;
+		// index selection (private access): what DataIndexes::GetFitUniqueHashIndex / GetFitMultiHashIndex return for the equality
+		// columns of this query - compared with the generated functions run by the model on its own index list
+		{ std::vector<size_t> offs; const ColumnList& cl = table.GetColumnList();
+			if (mask & 1) offs.push_back(cl.GetOffset(id)); if (mask & 2) offs.push_back(cl.GetOffset(a));
+			if (mask & 4) offs.push_back(cl.GetOffset(b)); if (mask & 8) offs.push_back(cl.GetOffset(c));
+			long fu = -1, fm = -1; fitIndexes(table, offs, fu, fm); out << " f " << fu << " " << fm; }
 	}
 	else if (cmd == "QA") { mutating = false; long d = 0; bed.verifyAllSelects(&d); out << "qa " << d; }
 	else if (cmd == "FU" || cmd == "FUR")
